@@ -21,7 +21,7 @@
     `atmOK s t`            NOT (target atmosphere type 0 and source type 1 or 2).
 -/
 import PyTough.Model.Mapping
-import PyTough.Proofs.MappingProps
+import PyTough.Proofs.MappingRock
 
 namespace Props.C19
 open Py Model.Mapping
@@ -161,5 +161,98 @@ theorem block_mapping_keyerror_general (q : List (Rat × Rat) → Rat × Rat →
 
 example : srcOK (exSrc 1) = true ∧ tgtOK (exTgt 0) = true ∧ (exTgt 0).atm = 0 ∧ (exSrc 1).atm ≠ 0 ∧
     ∀ c ∈ (exTgt 0).cols, c.name ≠ atmColName (exTgt 0).conv := by decide +kernel
+
+/-! ### transferring initial conditions (`t2incon.transfer_from`)
+
+  `transferFrom q src s t mapping colmapping` is the new contents of the receiving object:
+  a dict from block names to states (`IncVal`: variables, porosity, and a tag standing for the
+  attributes `copy()` carries along).  `effectiveMaps` are the mappings used: the ones passed in,
+  or those of `block_mapping` when either is empty.  The model is functional, so the clause
+  "without altering the source" has no counterpart here; it is checked on the real code by the
+  oracle on every run (deep comparison of the source before and after). -/
+
+/-- an initial-conditions object over `exSrc`: two variables per block -/
+def exInc (atm : Nat) : Incon :=
+  match (exSrc atm).blockNameList with
+  | .ok names => (enumFrom 0 names).map (fun p => (p.2, ⟨[(p.1 : Rat), 20], none, some p.1⟩))
+  | .error _ => []
+
+/-- Every underground target block receives exactly the state of its mapped source block —
+    whenever the call returns; any number of variables; mappings passed in or computed. -/
+theorem incon_transfer_underground (q : List (Rat × Rat) → Rat × Rat → Nat) (src : Incon) (s t : Geo)
+    (mp cmp : Dict Str) (res : Incon) (h : transferFrom q src s t mp cmp = .ok res) :
+    ∃ m cm names na, effectiveMaps q s t mp cmp = .ok (m, cm) ∧ t.blockNameList = .ok names ∧
+      t.numAtmBlocks = .ok na ∧
+      ∀ blk ∈ names.drop na, ∃ sb v, dget m blk = .ok sb ∧ dget src sb = .ok v ∧ dget res blk = .ok v :=
+  Proofs.Mapping.incon_underground q src s t mp cmp res h
+
+example : (transferFrom nearestFirst (exInc 1) (exSrc 1) (exTgt 1) [] []).toBool = true := by decide +kernel
+-- the block over target column 4 gets the state of the source's atmosphere block over column 'b' (block number 1)
+example : (match transferFrom nearestFirst (exInc 1) (exSrc 1) (exTgt 1) [] [] with
+    | .ok res => (dget res ['a', 't', ' ', ' ', '4']).toOption.map (·.vars)
+    | .error _ => none) = some [1, 20] := by decide +kernel
+
+/-- Target with a single atmosphere block: it receives the first source state (source type 0:
+    the source's own atmosphere block), the average over the source's per-column atmosphere
+    blocks (type 1), or the default state `[1.013e5, 20]` (source without atmosphere). -/
+theorem incon_transfer_atmosphere_single (q : List (Rat × Rat) → Rat × Rat → Nat) (src : Incon) (s t : Geo)
+    (mp cmp : Dict Str) (res : Incon) (ht : tgtOK t = true) (h0 : t.atm = 0)
+    (h : transferFrom q src s t mp cmp = .ok res) :
+    ∃ atmblk, t.atmNames = .ok [atmblk] ∧
+      (s.atm = 0 → ∃ v, firstInc src = .ok v ∧ dget res atmblk = .ok v) ∧
+      (s.atm = 1 → ∃ v, atmAverage s src = .ok v ∧ dget res atmblk = .ok v) ∧
+      (s.atm ≠ 0 → s.atm ≠ 1 → dget res atmblk = .ok defaultAtm) :=
+  Proofs.Mapping.incon_atm_single q src s t mp cmp res ht h0 h
+
+/-- what "average" is: with a state of the same length over every source column, the
+    componentwise sum divided by the number of columns, as a fresh object (no porosity) -/
+theorem incon_average_value (s : Geo) (src : Incon) (first : IncVal) (vss : List (List Rat))
+    (hfirst : firstInc src = .ok first) (hcols : mapE (atmColVars s src) s.cols = .ok vss)
+    (hlen : ∀ v ∈ vss, v.length = first.vars.length) (hne : s.cols ≠ []) :
+    atmAverage s src = .ok ⟨(vss.foldl (List.zipWith (· + ·)) (List.replicate first.vars.length 0)).map
+        (· / (s.cols.length : Rat)), none, none⟩ :=
+  Proofs.Mapping.atmAverage_eq s src first vss hfirst hcols hlen hne
+
+-- averaging is reachable only with the mappings passed in (block_mapping itself fails for 1 -> 0):
+-- the two atmosphere states [0, 20] and [1, 20] of `exInc 1` average to [1/2, 20]
+example : atmAverage (exSrc 1) (exInc 1) = .ok ⟨[1/2, 20], none, none⟩ := by decide +kernel
+
+/-- Target with an atmosphere block over each column: the block over column `c` receives the
+    first source state (source type 0), the state of the source's atmosphere block over the
+    column `c` is mapped to (type 1), or the default state (source without atmosphere). -/
+theorem incon_transfer_atmosphere_percolumn (q : List (Rat × Rat) → Rat × Rat → Nat) (src : Incon) (s t : Geo)
+    (mp cmp : Dict Str) (res : Incon) (ht : tgtOK t = true) (h1 : t.atm = 1)
+    (h : transferFrom q src s t mp cmp = .ok res) :
+    ∃ m cm g0, effectiveMaps q s t mp cmp = .ok (m, cm) ∧ t.lay0 = .ok g0 ∧
+      ∀ c ∈ t.cols, ∃ blk, blockName t.conv g0.name c.name = .ok blk ∧
+        (s.atm = 0 → ∃ v, firstInc src = .ok v ∧ dget res blk = .ok v) ∧
+        (s.atm = 1 → ∃ mc s0 old v, dget cm c.name = .ok mc ∧ s.lay0 = .ok s0 ∧
+            blockName s.conv s0.name mc = .ok old ∧ dget src old = .ok v ∧ dget res blk = .ok v) ∧
+        (s.atm ≠ 0 → s.atm ≠ 1 → dget res blk = .ok defaultAtm) :=
+  Proofs.Mapping.incon_atm_percolumn q src s t mp cmp res ht h1 h
+
+/-- The transfer with computed mappings returns and gives every target block a state, when the
+    source object has a state for every source block.  PARTIAL through `atmOK` only: for source
+    type 1 or 2 onto target type 0 `block_mapping` raises (known finding) and so does this. -/
+theorem incon_transfer_total_partial (q : List (Rat × Rat) → Rat × Rat → Nat) (hq : IsNearest q)
+    (src : Incon) (s t : Geo)
+    (hs : srcOK s = true) (ht : tgtOK t = true) (ha : atmOK s t = true) (hne : src ≠ [])
+    (hcover : ∀ snames, s.blockNameList = .ok snames → ∀ n ∈ snames, ∃ v, dget src n = .ok v) :
+    ∃ res tnames, transferFrom q src s t [] [] = .ok res ∧ t.blockNameList = .ok tnames ∧
+      ∀ d ∈ tnames, ∃ v, dget res d = .ok v :=
+  Proofs.Mapping.incon_total_partial q hq src s t hs ht ha hne hcover
+
+/-! ### transferring a model (`t2data`): rock types -/
+
+/-- every target block gets the rock type of its mapped source block -/
+theorem rocktype_transfer_spec (sr m : Dict Str) (tb rs : List Str) (h : transferRocktypes sr m tb = .ok rs) :
+    rs.length = tb.length ∧ ∀ p ∈ tb.zip rs, ∃ sb, dget m p.1 = .ok sb ∧ dget sr sb = .ok p.2 :=
+  Proofs.Mapping.rocktypes_spec sr m tb rs h
+
+/-- onto an identical geometry (identity block mapping) every assignment is preserved -/
+theorem rocktype_transfer_identity (sr m : Dict Str) (tb : List Str) (rock : Str → Str)
+    (hid : ∀ b ∈ tb, dget m b = .ok b) (hsr : ∀ b ∈ tb, dget sr b = .ok (rock b)) :
+    transferRocktypes sr m tb = .ok (tb.map rock) :=
+  Proofs.Mapping.rocktypes_identity sr m tb rock hid hsr
 
 end Props.C19
